@@ -66,7 +66,9 @@ Start ==
   [ th |-> << <<Act("root", Prog.root)>> >>, out |-> <<>>, ch |-> <<>>,
     vars |-> [n \in DOMAIN VarMap |-> Prog.globals[VarMap[n]].v],
     cnt |-> <<>>, tof |-> <<>>, seqc |-> <<>>, turn |-> -1, st |-> "run", err |-> "", ret |-> [t |-> "void"],
-    safe |-> FALSE ]
+    safe |-> FALSE,
+    dirty |-> {},         \* globals that were given a different value since the current continue began (for observers)
+    touched |-> {} ]      \* globals that were assigned at all since then
 
 Get(f, k, d) == IF k \in DOMAIN f THEN f[k] ELSE d
 Put(f, k, v) == (k :> v) @@ f
@@ -187,7 +189,9 @@ Goto(m, target) ==
 \* assignment to a temporary of the current activation if there is one of that name, else to the global
 Assign(m, x, v) ==
   LET a == CurAct(m) IN
-  IF x \in DOMAIN a.temps THEN SetAct(m, [a EXCEPT !.temps = Put(a.temps, x, v)]) ELSE [m EXCEPT !.vars = Put(m.vars, x, v)]
+  IF x \in DOMAIN a.temps THEN SetAct(m, [a EXCEPT !.temps = Put(a.temps, x, v)])
+  ELSE [m EXCEPT !.vars = Put(m.vars, x, v), !.touched = m.touched \cup {x},
+                 !.dirty = IF x \in DOMAIN m.vars /\ m.vars[x] = v THEN m.dirty ELSE m.dirty \cup {x}]
 
 \* a function call ends with value v (void: nothing): whitespace it produced at its end is dropped, the caller goes on
 \* with the value - printed, assigned or dropped
